@@ -5,9 +5,11 @@ C13 line-protocol driver.  One case = one admin handler + one request:
   load <side> <addr> …same fields…     the same case driven through caddy.Load of a JSON config
   cli  <flag> <listen|~> <origins> <eo>  the CLI side: real DetermineAdminAPIAddress + AdminAPIRequest (GET /config/) against the endpoint
                                        the real caddy.Load of that config starts; the free TCP port is written PORT
-  hist <step> …                        a HISTORY of config loads (real caddy.Load each), step = <local>@<remote>, local = n | d | a0 | a1,
-                                       remote = ~ | a2=<acl> | a3=<acl>; after each load every admin address configured so far is
-                                       probed over the network (HTTP / mutual TLS with the keys 0..3): L<id>:up|dn R<id>:dn|<4 × s m p r>
+  hist <step> …                        a HISTORY of config loads (real caddy.Load each), step = <local>@<remote>, local = n | d | a0 | a1
+                                       (default origins) | t0 | t1 (origins that exclude the address's own Host) | b (an address that
+                                       cannot be bound: the load must be rejected), remote = ~ | a2=<acl> | a3=<acl>; after each load
+                                       every admin address configured so far is probed over the network (32 HTTP requests / mutual TLS
+                                       with the keys 0..3): L<id>:dn|ok|no|mix  R<id>:dn|<4 × s m p r>
   ip   <hex>                           netip.ParseAddr + IsUnspecified / IsLoopback of a host → n | u | l | o
   url  <hex>                           net/url.Parse on printable ASCII without `%` → `ok <scheme> <host>` | `err`
   cf   <args> <block>                  the Caddyfile `admin` global option: args = . | hex,hex…  block = ~ (none) |
@@ -308,15 +310,16 @@ def parseHistStep (s : String) : Option LoadCfg :=
   match s.splitOn "@" with
   | [l, r] =>
     let loc : Option LocalCfg :=
-      if l == "n" then some .absent else if l == "d" then some .disabled
-      else if l == "a0" then some (.listen 0) else if l == "a1" then some (.listen 1) else none
+      if l == "n" then some .absent else if l == "d" then some .disabled else if l == "b" then some .blocked
+      else if l == "a0" then some (.listen 0 false) else if l == "a1" then some (.listen 1 false)
+      else if l == "t0" then some (.listen 0 true) else if l == "t1" then some (.listen 1 true) else none
     match loc with
     | none => none
     | some loc =>
       if r == "~" then some ⟨loc, none⟩
       else match r.splitOn "=" with
         | [a, acl] =>
-          if (a != "a2" && a != "a3") || l == "n" then none
+          if (a != "a2" && a != "a3") || l == "n" || l == "b" then none
           else match parseAcl acl with
             | some (some acl) =>
               if acl.all (fun e => e.keys.all (· < 4)) then some ⟨loc, some (if a == "a2" then 2 else 3, acl)⟩ else none
@@ -325,12 +328,15 @@ def parseHistStep (s : String) : Option LoadCfg :=
   | _ => none
 
 def histSeen (hist : List LoadCfg) : List Nat × List Nat :=
-  (([0, 1] : List Nat).filter (fun a => hist.any (fun c => c.loc == .listen a)),
+  (([0, 1] : List Nat).filter (fun a => hist.any (fun c => c.loc == .listen a false || c.loc == .listen a true)),
    ([2, 3] : List Nat).filter (fun a => hist.any (fun c => match c.remote with | some (b, _) => a == b | none => false)))
 
 def showLife (s : Life) (seen : List Nat × List Nat) : String :=
   " ".intercalate
-    (seen.1.map (fun a => s!"L{a}:" ++ (if s.liveLocal.any (·.addr == a) then "up" else "dn")) ++
+    (seen.1.map (fun a => s!"L{a}:" ++
+       (if !s.liveLocal.any (·.addr == a) then "dn"
+        else if (s.liveLocal.filter (·.addr == a)).all (fun v => !v.tight) then "ok"
+        else if (s.liveLocal.filter (·.addr == a)).all (·.tight) then "no" else "mix")) ++
      seen.2.map (fun a => s!"R{a}:" ++
        (match s.liveRemote.find? (·.addr == a) with
         | some srv => String.ofList ([0, 1, 2, 3].map (keyAnswer srv.acl))
